@@ -128,6 +128,13 @@ func randomCfg(g *rand.Rand, seed int64, family string) SchedCfg {
 	case "snapapply":
 		b.Async = true
 		s.Strict = false
+	case "soloread":
+		b.Async = true
+		b.Lease = false
+		s.Voters = []uint64{1}
+		s.Learners = nil
+	case "xferjoint":
+		b.Async = false
 	case "aba":
 		b.Async = true
 		if len(s.Voters) < 5 {
@@ -402,7 +409,7 @@ func (x *gen) next(phase string) string {
 	return "tickall"
 }
 
-var phases = []string{"healthy", "chaos", "partition", "crashy", "confchange", "snapshots", "transfer", "reads", "limits", "stall", "dsnap", "fig8snap", "dupvote", "snaplead", "rereads", "snapapply", "aba"}
+var phases = []string{"healthy", "chaos", "partition", "crashy", "confchange", "snapshots", "transfer", "reads", "limits", "stall", "dsnap", "fig8snap", "dupvote", "snaplead", "rereads", "snapapply", "aba", "xferjoint", "soloread"}
 
 func (x *gen) isLeader(n *Node) bool {
 	if !n.alive || n.rn == nil {
@@ -647,6 +654,13 @@ func (x *gen) directedDoubleSnapshot() {
 		x.deliverAll()
 	}
 	s1 := usnap()
+	late := s1 != 0 && x.g.Intn(2) == 0 // the first MsgSnap is delivered once more at the end
+	if s1 != 0 && x.g.Intn(2) == 0 {
+		// the transport reports f unreachable while the outcome of the snapshot is still open
+		x.c.exec(fmt.Sprintf("unreach %d %d", l.id, f.id))
+		x.c.exec(fmt.Sprintf("propose %d", l.id))
+		x.c.exec(fmt.Sprintf("process %d", l.id))
+	}
 	if s1 != 0 {
 		// f accepts the Ready that carries the snapshot; the write is not finished
 		x.c.exec(fmt.Sprintf("sub %d", f.id))
@@ -663,6 +677,11 @@ func (x *gen) directedDoubleSnapshot() {
 				x.deliverAll()
 			}
 		}
+	}
+	if late {
+		// the newer snapshot (and possibly entries after it) is accepted but not applied yet
+		// when a delayed duplicate of the older MsgSnap is delivered
+		x.c.exec(fmt.Sprintf("resnap %d 1", f.id))
 	}
 	x.c.exec(fmt.Sprintf("process %d", f.id))
 	x.c.exec("flush 5")
@@ -701,6 +720,10 @@ func runRandom(s SchedCfg, nops int, tr *traceWriter) *Cluster {
 			x.directedSnapApply()
 		case "aba":
 			x.directedABA()
+		case "xferjoint":
+			x.directedXferJoint()
+		case "soloread":
+			x.directedSoloRead()
 		default:
 			for i, l := 0, 15+x.g.Intn(50); i < l && c.ops < nops; i++ {
 				c.exec(x.next(phase))
